@@ -3,6 +3,7 @@ CONSTANTS NP = 4
  NF = 0
  NA = 3
  NC = 0
+ NS = 6
  Light = FALSE
 INIT InitGen
 NEXT EvalGen
